@@ -12,7 +12,7 @@ from mc.core import Check, h
 from mc.vloop import World
 
 YIELDABLES = ["F0", "F1", "LIST", "DICT", "NONE", "NATIVE", "SUB", "F0AGAIN"]
-SIMPLE = [("log",)] + [("y", e) for e in YIELDABLES] + [("ret",), ("raise",), ("ifret",)]
+SIMPLE = [("log",)] + [("y", e) for e in YIELDABLES] + [("ret",), ("raise",), ("ifret",), ("cvset",)]
 CV = contextvars.ContextVar("c37", default="unset")
 
 
@@ -30,15 +30,17 @@ def emit(stmts, gen_form, indent=1, counter=None):
         counter[0] += 1
         k = counter[0]
         if s[0] == "log":
-            out.append(pad + "log('s%d')" % k)
+            out.append(pad + "log(('s%d', CV.get()))" % k)
+        elif s[0] == "cvset":
+            out.append(pad + "CV.set('inner%d')" % k)
         elif s[0] == "y":
             e = s[1]
             if e in ("F0", "F1", "F0AGAIN"):
                 expr = "F[%s]" % ("0" if e != "F1" else "1")
             elif e == "LIST":
-                expr = "[F[0], F[1]]" if gen_form else "gen.multi([F[0], F[1]])"
+                expr = "[F[0], F[1]]" if gen_form else "ref_multi([F[0], F[1]])"
             elif e == "DICT":
-                expr = "{'a': F[1], 'b': F[0]}" if gen_form else "gen.multi({'a': F[1], 'b': F[0]})"
+                expr = "{'a': F[1], 'b': F[0]}" if gen_form else "ref_multi({'a': F[1], 'b': F[0]})"
             elif e == "NONE":
                 expr = "None" if gen_form else "asyncio.sleep(0)"
             elif e == "NATIVE":
@@ -46,7 +48,7 @@ def emit(stmts, gen_form, indent=1, counter=None):
             else:
                 expr = "sub(F[2])"
             out.append(pad + "v%d = %s %s" % (k, Y, expr))
-            out.append(pad + "log(('got%d', v%d))" % (k, k))
+            out.append(pad + "log(('got%d', v%d, CV.get()))" % (k, k))
         elif s[0] == "ret":
             out.append(pad + "return ('ret', %d)" % k)
         elif s[0] == "raise":
@@ -60,12 +62,29 @@ def emit(stmts, gen_form, indent=1, counter=None):
             out += emit(body, gen_form, indent + 1, counter)
             if variant in ("except", "both"):
                 out.append(pad + "except Err as e:")
-                out.append(pad + "    log(('caught%d', str(e)))" % k)
+                out.append(pad + "    log(('caught%d', str(e), CV.get()))" % k)
                 out += emit(handler, gen_form, indent + 1, counter)
             if variant in ("finally", "both"):
                 out.append(pad + "finally:")
-                out.append(pad + "    log('fin%d')" % k)
+                out.append(pad + "    log(('fin%d', CV.get()))" % k)
     return out
+
+
+async def ref_multi(children):
+    """The documented meaning of yielding a list / dict of awaitables, written with plain awaits: wait for every
+    child; the result keeps list / key order; if any child failed, the first failure in list / key order is raised."""
+    keys = list(children.keys()) if isinstance(children, dict) else None
+    fs = list(children.values()) if keys is not None else list(children)
+    res, first = [], None
+    for f in fs:
+        try:
+            res.append(await f)
+        except Exception as e:
+            if first is None:
+                first = e
+    if first is not None:
+        raise first
+    return dict(zip(keys, res)) if keys is not None else res
 
 
 def compile_pair(stmts):
@@ -79,7 +98,7 @@ def compile_pair(stmts):
         ns = {}
         from tornado import gen
         exec(compile(code, "<c37-%s>" % ("gen" if gen_form else "native"), "exec"),
-             {"gen": gen, "asyncio": asyncio, "Err": Err, "CV": CV}, ns)
+             {"gen": gen, "asyncio": asyncio, "Err": Err, "CV": CV, "ref_multi": ref_multi}, ns)
         fns[gen_form] = ns["prog"]
         src[gen_form] = code
     return fns, src
@@ -119,6 +138,7 @@ def run_one(fn, gen_form, outcomes, order, npre, flag):
             except Exception as e:
                 return (list(log), ("sync-raise", type(e).__name__, str(e)))
         finally:
+            caller_cv = CV.get()
             CV.reset(tok)
         w.pump()
         for i in order[npre:]:
@@ -136,7 +156,7 @@ def run_one(fn, gen_form, outcomes, order, npre, flag):
             out = ("exc", type(fut.exception()).__name__, str(fut.exception()))
         else:
             out = ("ok", fut.result())
-        return (list(log), out)
+        return (list(log), out, caller_cv)
 
 
 def programs(tier):
@@ -177,7 +197,7 @@ class C37(Check):
     id = "C37"
     level = "model_checking"
     rule = ("all coroutine bodies from the grammar {log, v = yield F0|F1|[F0,F1]|{a:F1,b:F0}|None|native(F2)|gen-sub(F2)| "
-            "F0 again, return, raise, if flag: return, try/except/finally (except / finally / both, handler empty or "
+            "F0 again, return, raise, if flag: return, set the context variable, try/except/finally (except / finally / both, handler empty or "
             "yielding / returning / raising)} as sequences of <= 3 simple statements and try blocks with <= 2 inner "
             "statements plus optional pre/post statements (thorough: nested try), each compiled as @gen.coroutine and as "
             "async def; x outcomes {result, exception} for each of 3 futures x every completion order x number of "
@@ -187,7 +207,11 @@ class C37(Check):
              "and the final result/exception of the decorated generator coroutine equal those of the native coroutine.")
     technique = "exhaustive enumeration of a program grammar x outcome assignments x completion schedules; differential oracle between two forms"
     assumptions = ["cancellation and BaseExceptions are outside the grammar",
-                   "'yield None' corresponds to 'await asyncio.sleep(0)'; lists/dicts to gen.multi"]
+                   "'yield None' corresponds to 'await asyncio.sleep(0)'; a yielded list/dict corresponds to awaiting the "
+                   "children one after the other, collecting results in list/key order and raising the first failure in "
+                   "that order (the documented meaning; tornado.gen.multi is not used on the reference side)",
+                   "every logged side effect carries the context variable's current value, so a resumption in the wrong "
+                   "context is a trace difference"]
 
     def partitions(self, tier):
         return [(i, 64) for i in range(64)]
